@@ -14,6 +14,8 @@ pub uninterp spec fn aead_dec(id: int, k: Seq<u8>, n: u64, ad: Seq<u8>, ct: Seq<
 pub uninterp spec fn dh_pub(id: int, sk: Seq<u8>) -> Seq<u8>;
 pub uninterp spec fn dh_fn(id: int, sk: Seq<u8>, pk: Seq<u8>) -> Seq<u8>;
 
+pub uninterp spec fn gen_sk(rng_state: int, did: int) -> Seq<u8>;
+pub uninterp spec fn gen_next(rng_state: int) -> int;
 pub open spec fn zeros(n: int) -> Seq<u8> { Seq::new(n as nat, |i: int| 0u8) }
 
 // ---- RFC 2104 / Noise 4.3 ---------------------------------------------------
